@@ -16,6 +16,26 @@ Theorem fidelity : forall c hs, id_ok c ->
   filter (not_owned c) (edit_request c hs) = filter (not_owned c) hs.
 Proof. intros c hs H. exact (fidelity_l c H hs). Qed.
 
+(** … and with a per-frontend request policy [r] (rewrite host / path, header inject /
+    delete) applied on top: the backend sees the client's request plus the
+    configured edits plus the proxy metadata — every field that neither the proxy
+    owns nor the policy names arrives unchanged, in order, with its multiplicity;
+    what the policy does is exactly [apply_rw] (deletions by name, then the
+    configured insertions, X-Forwarded-Host when the host is rewritten; the Host
+    line itself is the rewritten authority, never a second field). *)
+Theorem fidelity_with_policy : forall c r orig hs, id_ok c ->
+  filter (fun h => not_owned c h && negb (rw_touches r h)) (apply_rw r orig (edit_request c hs)) =
+  filter (fun h => not_owned c h && negb (rw_touches r h)) hs.
+Proof. intros c r orig hs H. exact (fidelity_with_policy_l c r orig hs H). Qed.
+
+Theorem policy_leaves_unnamed_fields : forall r orig hs,
+  filter (fun h => negb (rw_touches r h)) (apply_rw r orig hs) = filter (fun h => negb (rw_touches r h)) hs.
+Proof. exact apply_rw_others. Qed.
+
+Theorem policy_items_refine : forall r orig l,
+  headers_of (apply_rw_items r orig l) = apply_rw r orig (headers_of l).
+Proof. exact headers_of_apply_rw. Qed.
+
 (** cookies: exactly the client's crumbs minus sozu's sticky one, in order *)
 Theorem cookies_fidelity : forall c jar,
   edit_cookies c jar = filter (fun k => negb (beq (fst k) (c_sticky c))) jar /\
@@ -193,6 +213,13 @@ Example fidelity_nonvacuous :
     (B "X-Real-IP", B "2001:db8::1"); (B "X-Forwarded-Port", B "8080"); (B "X-Forwarded-Proto", B "https");
     (B "Sozu-Id", B "01ARZ3NDEKTSV4RRFFQ69G5FAV") ].
 Proof. split; vm_compute; reflexivity. Qed.
+
+Example policy_nonvacuous :
+  apply_rw (mkrw (Some (B "new.example")) None [(B "X-A", []); (B "X-New", B "v"); (B "Host", B "op.example")]) (B "old.example")
+           [(B "x-a", B "1"); (B "Accept", B "*/*"); (B "X-Forwarded-Host", B "spoof")] =
+  [(B "Accept", B "*/*"); (B "X-Forwarded-Host", B "old.example"); (B "X-New", B "v")] /\
+  rw_authority (mkrw (Some (B "new.example")) None [(B "Host", B "op.example")]) (B "old.example") = B "op.example".
+Proof. vm_compute. split; reflexivity. Qed.
 
 Example h2_filter_nonvacuous :
   h2_filter [ (B "Connection", B "x"); (B "TE", B "gzip"); (B "te", B "trailers"); (B "X-A", B "v");
